@@ -251,3 +251,25 @@ func TraceArg32(i, k int) uint32 {
 	b, _ := Trace[i].Args[k].(uint32)
 	return b
 }
+
+// TraceRet returns result k of event i with its own type (zero value if there is no such event).
+func TraceRet[T any](i, k int) T {
+	needRecording()
+	var z T
+	if i < 0 || i >= len(Trace) || k >= len(Trace[i].Rets) {
+		return z
+	}
+	v, _ := Trace[i].Rets[k].(T)
+	return v
+}
+
+// TraceArg returns argument k of event i with its own type (zero value if there is no such event).
+func TraceArg[T any](i, k int) T {
+	needRecording()
+	var z T
+	if i < 0 || i >= len(Trace) || k >= len(Trace[i].Args) {
+		return z
+	}
+	v, _ := Trace[i].Args[k].(T)
+	return v
+}
